@@ -653,10 +653,12 @@ Fixpoint recv_loop (fuel : list msg) (s : vsock) (acc : on_ack_result)
       end
   end.
 
-(* everything below snd_una was acknowledged, hence sent *)
+(* everything below snd_una was acknowledged, hence sent - as far as the numbers were used at all (an ACK
+   may cover segments that were never sent: those numbers are still below seq_nr only if they were) *)
 Definition acked_counts_as_sent (s : vsock) : vsock :=
   let acked_up_to := wsub16 (ss_snd_una (v_segs s)) 1 in
-  if seq_gt acked_up_to (v_last_sent_seq_nr s) then set_last_sent_seq_nr s acked_up_to else s.
+  if seq_gt acked_up_to (v_last_sent_seq_nr s) && seq_lt acked_up_to (v_seq_nr s)
+  then set_last_sent_seq_nr s acked_up_to else s.
 
 Definition process_all_incoming_messages (s : vsock) : step unit :=
   sbind (recv_loop (v_inbox s ++ [ {| m_hdr := outgoing_header s; m_payload := [] |} ]) s
